@@ -490,7 +490,7 @@ def run(tier, seed):
     if ch.get('other_errors'):
         errs.append("crosshair: %s" % ch['other_errors'][0][:300])
     rc = run_property(
-        'C07', harnesses(tier, seed), tier, seed, extra_errors=errs,
+        'C07', harnesses(tier, seed) + __import__('dfverif.step', fromlist=['x']).action_harnesses(tier, seed, 'C07'), tier, seed, extra_errors=errs,
         explanation="Symbolic execution (z3, linear integer/real arithmetic) of the real solve() from entry to its call of "
                     "solve_main, ParameterList and OptimResults, over all argument kinds and symbolic magnitudes; obligations: "
                     "no exception except ValueError for an unknown key, BAD(input) => input-error result with zero evaluations "
